@@ -45,7 +45,46 @@ type goCeremony struct {
 	op      M
 }
 
+// spare returns a copy of b that sits inside a larger buffer: 48 bytes of spare capacity follow it, filled with a sentinel.
+// A callee that appends to (or writes behind) a caller's slice shows up in the before/after comparison, which renders the
+// whole capacity.
+func spare(b []byte) []byte {
+	if b == nil {
+		return nil
+	}
+	buf := make([]byte, len(b)+48)
+	copy(buf, b)
+	for i := len(b); i < len(buf); i++ {
+		buf[i] = 0xA5
+	}
+	return buf[:len(b)]
+}
+
+func full(b []byte) string { return fmt.Sprintf("%x|%x", b, b[len(b):cap(b)]) }
+
 func goCeremonyFromOp(op M) *goCeremony {
+	g := goCeremonyFromOpPlain(op)
+	if g.regOpts != nil {
+		g.regOpts.Challenge = spare(g.regOpts.Challenge)
+		g.regOpts.User.ID = spare(g.regOpts.User.ID)
+		g.regCred.RawID = spare(g.regCred.RawID)
+		g.regCred.Response.ClientDataJSON = spare(g.regCred.Response.ClientDataJSON)
+		g.regCred.Response.AttestationObject = spare(g.regCred.Response.AttestationObject)
+	} else {
+		g.authO.Challenge = spare(g.authO.Challenge)
+		for i := range g.authO.AllowCredentials {
+			g.authO.AllowCredentials[i].ID = spare(g.authO.AllowCredentials[i].ID)
+		}
+		g.authC.RawID = spare(g.authC.RawID)
+		g.authC.Response.ClientDataJSON = spare(g.authC.Response.ClientDataJSON)
+		g.authC.Response.AuthenticatorData = spare(g.authC.Response.AuthenticatorData)
+		g.authC.Response.Signature = spare(g.authC.Response.Signature)
+		g.authC.Response.UserHandle = spare(g.authC.Response.UserHandle)
+	}
+	return g
+}
+
+func goCeremonyFromOpPlain(op M) *goCeremony {
 	g := &goCeremony{op: op}
 	if op["op"] == "register" {
 		g.kind = "register"
@@ -91,7 +130,18 @@ func (g *goCeremony) run(rp *webauthn.RelyingParty) M {
 
 // snapshot renders the inputs deeply (every byte of every slice), for before/after comparison
 func (g *goCeremony) snapshot() string {
-	return fmt.Sprintf("%#v|%#v|%#v|%#v", g.regOpts, g.regCred, g.authO, g.authC)
+	s := fmt.Sprintf("%#v|%#v|%#v|%#v", g.regOpts, g.regCred, g.authO, g.authC)
+	// every byte slice over its whole capacity
+	if g.regOpts != nil {
+		s += full(g.regOpts.Challenge) + full(g.regOpts.User.ID) + full(g.regCred.RawID) + full(g.regCred.Response.ClientDataJSON) + full(g.regCred.Response.AttestationObject)
+	} else {
+		s += full(g.authO.Challenge) + full(g.authC.RawID) + full(g.authC.Response.ClientDataJSON) + full(g.authC.Response.AuthenticatorData) +
+			full(g.authC.Response.Signature) + full(g.authC.Response.UserHandle)
+		for _, a := range g.authO.AllowCredentials {
+			s += full(a.ID)
+		}
+	}
+	return s
 }
 
 func genMixedOp(r *RNG, origin string, idPrefix string, store *[]M) M {
@@ -132,7 +182,8 @@ func init() {
 				st := storeFromOp(op)
 				stored := map[string]string{}
 				for k, v := range st.m {
-					stored[k] = fmt.Sprintf("%#v", *v)
+					v.ID, v.OwnerID, v.PublicKey = spare(v.ID), spare(v.OwnerID), spare(v.PublicKey)
+					stored[k] = fmt.Sprintf("%#v", *v) + full(v.ID) + full(v.OwnerID) + full(v.PublicKey)
 				}
 				rp := webauthn.NewRelyingParty(string(unhx(op["origin"].(string))), st)
 				g := goCeremonyFromOp(op)
@@ -141,7 +192,7 @@ func init() {
 				after := g.snapshot()
 				changedStored := false
 				for k, v := range stored {
-					if cur, ok := st.m[k]; !ok || fmt.Sprintf("%#v", *cur) != v {
+					if cur, ok := st.m[k]; !ok || fmt.Sprintf("%#v", *cur)+full(cur.ID)+full(cur.OwnerID)+full(cur.PublicKey) != v {
 						changedStored = true
 					}
 				}
@@ -174,25 +225,40 @@ func init() {
 				}
 				rp := webauthn.NewRelyingParty(origin, shared)
 				results := make([]M, n)
+				twins := make([]M, n)
 				snaps := make([][2]string, n)
+				var gs []*goCeremony
 				var wg sync.WaitGroup
 				start := make(chan struct{})
 				for i := 0; i < n; i++ {
+					g := goCeremonyFromOp(ops[i])
+					snaps[i][0] = g.snapshot()
 					wg.Add(1)
 					go func(i int) {
 						defer wg.Done()
-						g := goCeremonyFromOp(ops[i])
-						snaps[i][0] = g.snapshot()
 						<-start
 						if i%3 == 0 {
 							runtime.Gosched()
 						}
 						results[i] = g.run(rp)
-						snaps[i][1] = g.snapshot()
 					}(i)
+					// a twin goroutine verifies THE SAME options / credential objects at the same time (authentication only: a
+					// registration twin would race on the storage outcome, which is not what is being tested)
+					if g.kind == "authenticate" {
+						wg.Add(1)
+						go func(i int) {
+							defer wg.Done()
+							<-start
+							twins[i] = g.run(rp)
+						}(i)
+					}
+					gs = append(gs, g)
 				}
 				close(start)
 				wg.Wait()
+				for i, g := range gs {
+					snaps[i][1] = g.snapshot()
+				}
 				runtime.GOMAXPROCS(prev)
 				for i := 0; i < n; i++ {
 					// alone: same op against a private copy of the pre-populated storage
@@ -203,7 +269,11 @@ func init() {
 					}
 					ra := goCeremonyFromOp(ops[i]).run(webauthn.NewRelyingParty(origin, alone))
 					class := fmt.Sprintf("n%d-procs%d", n, procs)
-					c.Compare("concurrent", M{"op": "concurrent", "round": round, "i": i, "ceremony": ops[i]}, M{"result": results[i], "inputsChanged": snaps[i][0] != snaps[i][1]}, M{"result": ra, "inputsChanged": false}, class, true)
+					after := goCeremonySnapshotAfter(snaps, i)
+					c.Compare("concurrent", M{"op": "concurrent", "round": round, "i": i, "ceremony": ops[i]}, M{"result": results[i], "inputsChanged": after}, M{"result": ra, "inputsChanged": false}, class, true)
+					if twins[i] != nil {
+						c.Compare("concurrent.twin", M{"op": "concurrent.twin", "round": round, "i": i, "ceremony": ops[i]}, M{"result": twins[i]}, M{"result": ra}, class, true)
+					}
 					// the model's sequential verdict for the same ceremony against the same storage
 					mop := M{}
 					for k, v := range ops[i] {
@@ -236,4 +306,8 @@ func init() {
 			c.Compare("globals.unchanged", M{"op": "globals2"}, M{"same": before == after}, M{"same": true}, "tables", true)
 		}},
 	)
+}
+
+func goCeremonySnapshotAfter(snaps [][2]string, i int) bool {
+	return snaps[i][1] != "" && snaps[i][0] != snaps[i][1]
 }
